@@ -1,4 +1,5 @@
 import Nstd.Codec.LemmasNum
+import Nstd.Codec.LemmasStrtod
 /-!
   Property C18, numeric clause at full strength: "String's integer conversions are exact over the full range of
   each integer type" - what `toInt/toUInt/toInt64/toUInt64` (member AND static overloads) return for EVERY text
@@ -266,6 +267,29 @@ theorem strtod_assumption_satisfiable : StrtodExact strtodIdeal := strtodIdeal_e
 
 example : Dbl.eqv (toDouble strtodIdeal (fromDouble (.fin true 5 (-1)))) (.fin true 5 (-1)) :=
   (double_roundtrip_exact strtodIdeal strtodIdeal_exact true 5 (-1) (by decide) (by decide) (by decide)).1
+
+/-- the hypothesis is DISCHARGED by a definition: `strtodM` (Model.lean: the executable `strtod` of the driver - decimal
+    form with optional fraction / exponent, `inf`, `nan`; exponent of the binary64 grid checked by `expOk`, round to nearest,
+    ties to even; compared with the real `atof` on every `pd`/`fd` line) is exact on EVERY text `[-]digits.digits`, with any
+    number of digits, whose value is a double (`m < 2^53`, `-1074 <= e <= 971`, subnormals included) -/
+theorem strtodM_exact : StrtodExact strtodT := strtodT_exact
+
+/-- hence, with no assumption about `strtod` left: `toDouble(fromDouble x) = x` through the model's `strtod`, for every
+    double that is a multiple of 1/64 (every integer-valued double, `-0.0`), member and static overload -/
+theorem double_roundtrip_model (neg : Bool) (m : Nat) (e : Int) (hm : m < 9007199254740992) (he : -6 ≤ e) (he2 : e ≤ 971) :
+    Dbl.eqv (toDouble strtodT (fromDouble (.fin neg m e))) (.fin neg m e) ∧
+      Dbl.eqv (toDoubleS strtodT (fromDouble (.fin neg m e))) (.fin neg m e) :=
+  double_roundtrip_exact strtodT strtodT_exact neg m e hm he he2
+
+/-- the rounding step on its own: whenever `num / den` IS a double, `roundToDbl` returns it (any numerator / denominator:
+    this also covers texts with an exponent part) -/
+theorem roundToDbl_exact_on_doubles (neg : Bool) (num den m : Nat) (E : Int) (hd : 0 < den) (hx : Exact num den m E)
+    (hm : m < 9007199254740992) (hE1 : -1074 ≤ E) (hE2 : E ≤ 971) :
+    Dbl.eqv (roundToDbl neg num den) (.fin neg m E) := roundToDbl_exact neg num den m E hd hx hm hE1 hE2
+
+example : strtodM [49, 46, 53] = some (.fin false 6755399441055744 (-52)) := by decide             -- "1.5"
+example : strtodM [48, 120, 49, 112, 51] = none := by decide                                       -- "0x1p3": hexadecimal form
+example : Exact 15 10 3 (-1) := by simp [Exact]
 
 /-- an integer `n` prints as its numeral followed by `.000000` -/
 theorem fromDouble_integer (neg : Bool) (n : Nat) :
